@@ -16,7 +16,6 @@ import (
 	"verif/mc/hres"
 )
 
-
 // oneCase is a single execution: a program, its depth constant (in Prog.N), and an optional aborted attempt.
 type oneCase struct {
 	Prog       *Prog  `json:"prog"`
